@@ -3,7 +3,7 @@
 ID=$1; shift
 D=$(mktemp -d /tmp/vfseed.XXXXXX)
 git -C /repo archive HEAD src | tar -x -C $D
-(cd $D && git init -q . && git apply /verif/seeded/$ID/patch.diff) || { echo "$ID: patch does not apply to HEAD"; rm -rf $D; exit 2; }
+(cd $D && git init -q . && git apply --whitespace=nowarn /verif/seeded/$ID/patch.diff 2>/dev/null) || { echo "$ID: patch does not apply to HEAD"; rm -rf $D; exit 2; }
 for P in "$@"; do
   OUT=$(cd /verif && VERIF_REPO_SRC=$D/src ./check run $P --tier quick --no-evidence 2>&1); RC=$?
   echo "$ID $P exit=$RC $(echo "$OUT" | grep 'check=' | head -1 | cut -c1-160)"
